@@ -545,10 +545,14 @@ pub fn module_string(e: &EnumSpec, o: &ModOpts) -> ModuleSrc {
     let mut src = Src::default();
     src.push(&format!("pub mod m_{} {{", e.name.to_lowercase()));
     let clone: &[&str] = &["Clone"];
+    let err_path = e.parse_err() && e.hash64() % 2 == 0;
     let emit_one = |e: &EnumSpec, name: &str, src: &mut Src| {
         let mut eo = enum_opts(e, name);
         if e.use_phf() {
             eo.extra_std_derives = clone;
+        }
+        if err_path {
+            eo.err_fn = "errs::mk_err";
         }
         src.push(&enum_def(e, &eo));
         let g = generics(e, eo.t_bound, eo.t_inst);
@@ -556,9 +560,16 @@ pub fn module_string(e: &EnumSpec, o: &ModOpts) -> ModuleSrc {
         glue_string(e, name, &g.inst, src, o.property);
         format!("{}{}", name, g.inst)
     };
+    // half of the custom-error enums name their function through a multi-segment path, with a
+    // decoy of the same name in scope (it must never be the one that is called)
     if e.parse_err() {
         src.push("pub static ERR_CNT: ::std::sync::atomic::AtomicUsize = ::std::sync::atomic::AtomicUsize::new(0);");
-        src.push("pub fn mk_err(s: &str) -> vrt::MyErr { ERR_CNT.fetch_add(1, ::std::sync::atomic::Ordering::SeqCst); vrt::MyErr(s.to_string()) }");
+        if err_path {
+            src.push("pub mod errs { pub fn mk_err(s: &str) -> vrt::MyErr { super::ERR_CNT.fetch_add(1, ::std::sync::atomic::Ordering::SeqCst); vrt::MyErr(s.to_string()) } }");
+            src.push("pub fn mk_err(s: &str) -> vrt::MyErr { vrt::MyErr(format!(\"DECOY:{}\", s)) }");
+        } else {
+            src.push("pub fn mk_err(s: &str) -> vrt::MyErr { ERR_CNT.fetch_add(1, ::std::sync::atomic::Ordering::SeqCst); vrt::MyErr(s.to_string()) }");
+        }
     }
     let name = e.name.clone();
     let t1 = emit_one(e, &name, &mut src);
@@ -590,6 +601,9 @@ pub fn module_string(e: &EnumSpec, o: &ModOpts) -> ModuleSrc {
             src.push("pub mod tw {");
             if e.parse_err() {
                 src.push("pub use super::{mk_err, ERR_CNT};");
+                if err_path {
+                    src.push("pub use super::errs;");
+                }
             }
             let n2 = format!("{}Tw", name);
             let mut t2 = String::new();
